@@ -241,6 +241,12 @@ func (r *intraProxyStreamReceiver) Run(ctx context.Context, shardManager ShardMa
 	// Ensure we can cancel Recv() by canceling the context when tearing down
 	ctx, cancel := context.WithCancel(ctx)
 	r.cancel = cancel
+	// Release the stream whenever Run returns. If the receiver was shut down before Run got to
+	// set r.cancel (ClosePeerShard racing ensureStream's goroutine), nobody else ever cancels
+	// this context: the receive loop exits at once but the stream stays open, the peer keeps
+	// its sender registered for it, and whatever the peer routes through that sender is lost
+	// while being reported as delivered.
+	defer cancel()
 
 	client := adminservice.NewAdminServiceClient(conn)
 	streamClient, err := client.StreamWorkflowReplicationMessages(ctx)
